@@ -27,10 +27,13 @@ HERE = os.path.dirname(os.path.dirname(os.path.abspath(__file__)))
 KEY_SLASHMEM = 'C18:sqlite:/:memory:'
 
 META = {
-    'extractors': ['uri'],
+    'extractors': ['uri', 'pyuri'],
     'technique': ('Lean 4 proof (induction over the string for unquote∘quote with the hex-digit and UTF-8 arithmetic; '
                   'delimiter-freeness of quoted text for the urlsplit model) + extracted literals/safe sets/skeleton of '
-                  'uri() + differential correspondence of builders, urlparse model and _parseURI'),
+                  'uri() + differential correspondence of builders, urlparse model and _parseURI; TRANSLATOR tie: '
+                  'vlib/extractors/pyuri.py translates DBConnection._parseURI / uri / connectionFromURI, SQLiteConnection.uri / '
+                  '_connectionFromParams and ConnectionURIOpener.connectionForURI statement by statement into the PyUri deep embedding '
+                  '(Model/PyUri.lean); C18_translated_*_eq_model prove the translated programs equal to the hand model for all inputs'),
     'level_text': ('Theorems C18_unquote_quote (every string, every safe set without %), C18_sqlite_parse_build / '
                    'C18_sqlite_open_partial (every absolute file name and :memory:), C18_parse_build (every user, '
                    'password, db; host without URI delimiters, lower-case, IPv6 literals included; port absent/0 or 1..65535) and '
@@ -38,8 +41,12 @@ META = {
                    'distinct names and non-empty values appended as connectionForURI does parses back exactly), '
                    'C18_bad_port_rejected / C18_bad_port_built_rejected (every non-numeric, negative or > 65535 port) about a model whose literals, safe= '
                    'arguments and statement skeleton are regenerated from /repo on every run and whose urllib/_parseURI part '
-                   'is compared with the real code on built and on hostile raw URIs.'),
-    'level_note': ('Trusted: Lean kernel; extractor vlib/extractors/uri.py; the hand-written model of CPython 3.12 '
+                   'is compared with the real code on built and on hostile raw URIs.  C18_translated_parseURI_eq_model / _uri_eq_model / '
+                   '_sqlite_uri_eq_model / _connectionFromParams_eq_model / _connectionForURI_eq_model: the functions as TRANSLATED from the '
+                   'source on this run equal the hand model for all inputs (standard-library functions = the hand model, os.name != "nt"), so '
+                   'C18_translated_parse_build / _sqlite_parse_build / _parse_build_params / _sqlite_same_database state the round trip about the translated source.'),
+    'level_note': ('Trusted: Lean kernel; extractors vlib/extractors/uri.py and pyuri.py (AST -> PyUri term) and the reference semantics of the '
+                   'Python fragment (Model/PyUri.lean); the hand-written model of CPython 3.12 '
                    'urllib.parse (quote, unquote, urlsplit/urlparse, parse_qsl, UTF-8 replace-decoding), tied by sampling. '
                    'FALSE-witness theorem: sqlite file "/:memory:".'),
     'rule': ('cases = generic component tuples (class, user, password, host, port, db), sqlite file names, raw URI '
@@ -52,7 +59,11 @@ META = {
                 'decimal rendering / int() of the port (decDigits / parseDec), cross-checked'],
     'modelled': ['ipaddress.ip_address / IPvFuture validation of a bracketed host is a hand-written model (bracketedHostOk), compared on every raw URI with brackets',
                  'non-ASCII netloc: the NFKC check of urlsplit and Unicode str.lower() are not modelled; compared only where both are the identity',
-                 'os.name == "nt" branch of _parseURI', 'the sqlite engine / file system (executed for the same-file oracle)'],
+                 'os.name == "nt" branch of _parseURI: translated, proved dead for os.name != "nt" (hypothesis of the translated theorems); not compared on Windows',
+                 'method calls between objects (dbConnectionForScheme, connectionFromURI, cls(filename=..., **args)) are parameters of the translated '
+                 'semantics (resolved by running the translations in C18_translated_sqlite_same_database); _parseOldURI / connectionFromOldURI are not '
+                 'translated (proved unreachable from connectionForURI when oldUri is false)',
+                 'the sqlite engine / file system (executed for the same-file oracle)'],
     'assumptions': ['component strings are str without lone surrogates (quote raises UnicodeEncodeError otherwise; checked as such)',
                     'None and "" are the same "absent" value for user, password, host (Python truthiness in uri() and in _parseURI)',
                     'port 0 is this library\'s "unspecified port" (coordinator decision): uri() omits a falsy port and `host:0` parses to None; '
@@ -62,8 +73,9 @@ META = {
                     'uri() reports no extra parameters (debug, cache, timeout …): the query part of a reported URI is always empty; '
                     'extra parameters are those given to connectionForURI(uri, **args) or appended with urlencode; their values are non-empty '
                     '(parse_qsl drops blank values) and their names distinct',
-                    'the per-URI cache of connectionForURI is not modelled in Lean: that every reported URI (with and without parameters) '
-                    'addresses its own file when several similarly named databases are opened in one process is checked by the oracle only',
+                    'the per-URI cache of connectionForURI is translated and proved equal to the hand model UriX.connectionForURI (keyed by the '
+                    'extended URI text); that every reported URI (with and without parameters) addresses its own file when several similarly named '
+                    'databases are opened in one process is checked by the oracle',
                     'in-memory sqlite databases are private to a connection: for :memory: only the parsed file name is checked'],
     'exhaustive': False,
 }
